@@ -74,6 +74,7 @@ def cases(ctx):
     for c in bp[S::N]:
         yield c
         yield {"k": "tx_embed", "hex": c["hex"], "tag": c["tag"]}
+        yield {"k": "txin_embed", "hex": c["hex"], "tag": c["tag"]}
     # exhaustive over short scripts from a structural alphabet (conditionals with several ELSE, stray ELSE/ENDIF, empty branches)
     SA = [0x63, 0x64, 0x67, 0x68, 0x51, 0x00]
     kk = 0
@@ -148,6 +149,15 @@ def cases(ctx):
             if pi % N == S:
                 yield {"k": "script", "hex": (pre + tail).hex(), "tag": "unclosed_behind_prefix"}
                 yield {"k": "tx_embed", "hex": (pre + tail).hex(), "tag": "unclosed_behind_prefix"}
+                yield {"k": "txin_embed", "hex": (pre + tail).hex(), "tag": "unclosed_behind_prefix"}
+    # every script of up to five bytes over {IF, 0x65, 0x66, ELSE, ENDIF, OP_1}: each opener at every position (top level, first
+    # branch, else branch, nested), closed and never closed
+    si = 0
+    for L in range(1, 6):
+        for tup in itertools.product((0x63, 0x65, 0x66, 0x67, 0x68, 0x51), repeat=L):
+            si += 1
+            if si % N == S:
+                yield {"k": "script", "hex": bytes(tup).hex(), "tag": "structural_exhaustive"}
     # scripts that start 76 a9 14 and end 88 ac but are NOT the 25-byte P2PKH template (a template fast path must check the length)
     for fi, body in enumerate([bytes(19), bytes(21), b"", bytes(20) + b"\x88\xac\x76\xa9\x14" + bytes(20), bytes(20) + b"\x63", b"\x63" + bytes(19), bytes(20) + b"\x51\x51", bytes(18) + b"\x4c\x00",
                                bytes(20) + b"\x88\xac" + b"\x76\xa9\x14" + bytes(19), b"\x01" * 20, bytes(75)]):
@@ -155,6 +165,7 @@ def cases(ctx):
             sc = b"\x76\xa9\x14" + body + b"\x88\xac"
             yield {"k": "script", "hex": sc.hex(), "tag": "p2pkh_like_frame"}
             yield {"k": "tx_embed", "hex": sc.hex(), "tag": "p2pkh_like_frame"}
+            yield {"k": "txin_embed", "hex": sc.hex(), "tag": "p2pkh_like_frame"}
     # grammar scripts + mutations
     n = (5000 if thorough else 120)
     for i in range(n):
@@ -165,11 +176,13 @@ def cases(ctx):
         yield {"k": "script", "hex": b.hex(), "tag": "grammar", "must_accept": True}
         if i % 3 == 0:
             yield {"k": "tx_embed", "hex": b.hex(), "tag": "grammar", "must_accept": True}
+            yield {"k": "txin_embed", "hex": b.hex(), "tag": "grammar", "must_accept": True}
         for _ in range(3):
             m = gen.mutate(r, b, r.choice([1, 1, 2, 3]))
             yield {"k": "script", "hex": m.hex(), "tag": "mutant"}
         if i % 5 == 0:
             yield {"k": "tx_embed", "hex": gen.mutate(r, b, 1).hex(), "tag": "mutant"}
+            yield {"k": "txin_embed", "hex": gen.mutate(r, b, 1).hex(), "tag": "mutant"}
         # truncation at a random offset and right after every push header
         if b:
             cut = r.randrange(len(b))
@@ -194,6 +207,33 @@ def extra_stages(tier, seed, res):
     return C09.fuzz_stage(__name__, tier, seed, "roundtrip", 120, lambda data, cls: ([{"k": "script", "hex": data[1:].hex(), "tag": "random"}] if data and data[0] & 1 == 0 else []), seeds=seeds, max_len=1024)
 
 
+def lib_openers(ctx):
+    """The opcodes the library ITSELF treats as opening a conditional block, learnt from four one/two-byte probes: IF and NOTIF
+    always; 0x65 / 0x66 exactly when the library rejects the lone opcode and accepts opcode + ENDIF. Whatever that set is, it must
+    be the same at every position of a script (top level, first branch, else branch, nested)."""
+    got = getattr(ctx, "_c02_openers", None)
+    if got is None:
+        got = [99, 100]
+        for op_ in (0x65, 0x66):
+            a = ctx.call({"op": "script_decode", "hex": "%02x" % op_})
+            b = ctx.call({"op": "script_decode", "hex": "%02x68" % op_})
+            if "err" in a and "ok" in b:
+                got.append(op_)
+            elif not ("ok" in a and "ok" in b):
+                got = None  # inconsistent probe: fall back to the two-reading rule
+                break
+        got = tuple(got) if got is not None else ()
+        ctx._c02_openers = got
+    return got
+
+
+def is_unclosed(ctx, toks):
+    ops = lib_openers(ctx)
+    if ops:
+        return wire.unclosed(toks, ops)
+    return wire.unclosed(toks) and wire.unclosed(toks, (99, 100))
+
+
 def judge_script(ctx, case, raw, lib_ok, lib_bytes, lib_tokens, via):
     """shared oracle for the direct and the embedded-in-transaction path; lib_ok None = neither accepted nor rejected (panic etc.)"""
     try:
@@ -209,7 +249,7 @@ def judge_script(ctx, case, raw, lib_ok, lib_bytes, lib_tokens, via):
         if lib_ok:
             flat = wire.lib_tokens_flat(lib_tokens) if lib_tokens is not None else None
             shortened = trunc.tokens + [("push", bytes(trunc.remaining))]
-            if trunc.kind == "direct" and wire.unclosed(shortened) and wire.unclosed(shortened, (99, 100)):
+            if trunc.kind == "direct" and is_unclosed(ctx, shortened):
                 # the tolerated short final push must not switch the nesting check off
                 ctx.viol("unclosed_conditional accepted in a script that ends in a truncated direct push (via=%s)" % via, {"input": raw.hex()[:200]})
             elif trunc.kind == "direct" and flat in (None, shortened) and lib_bytes == wire.detok_lenient(shortened):
@@ -226,8 +266,10 @@ def judge_script(ctx, case, raw, lib_ok, lib_bytes, lib_tokens, via):
     has_struct = any(t[0] != "op" or t[1] in (99, 100, 101, 102) for t in ref)
     if has_struct:
         ctx.nontrivial()
-    if wire.unclosed(ref) and wire.unclosed(ref, (99, 100)):
+    if is_unclosed(ctx, ref):
         ctx.hit("unclosed_case")
+        if not (wire.unclosed(ref) and wire.unclosed(ref, (99, 100))):
+            ctx.hit("unclosed_only_under_library_opener_set")
         if lib_ok:
             ctx.viol("unclosed_conditional accepted (via=%s)" % via, {"input": raw.hex()[:200]})
         return
@@ -299,6 +341,30 @@ def judge(ctx, case):
         else:
             ctx.note("script_decode_" + [x for x in ("panic", "alloc_guard", "death", "timeout", "drv_err") if x in r][0])
             judge_script(ctx, case, raw, None, None, None, "script")
+    elif k == "txin_embed":
+        # the same script as the unlocking script of an ordinary (non-coinbase) input: accepted exactly when it is a script, unchanged
+        raw = bytes.fromhex(case["hex"])
+        ctx.hit("txin_embed")
+        tx = {"version": 1, "ins": [{"txid_wire": b"\x22" * 32, "vout": 3, "script": raw, "seq": 0xFFFFFFFE}], "outs": [{"value": 5, "script": b"\x51"}], "locktime": 0}
+        tb = wire.tx_encode(tx)
+        r = ctx.call({"op": "tx_decode", "hex": tb.hex()})
+        if "ok" in r:
+            try:
+                back = wire.tx_decode(bytes.fromhex(r["ok"]["bytes"]))
+                sc = back["ins"][0]["script"] if len(back["ins"]) == 1 else None
+            except wire.Trunc:
+                sc = None
+            if sc is None:
+                ctx.viol("transaction with embedded script re-serialises to an undecodable transaction (via=txin)", {"input": tb.hex()[:300]})
+                return
+            r2 = ctx.call({"op": "script_decode", "hex": sc.hex()})
+            toks = r2["ok"]["tokens"] if "ok" in r2 and r2["ok"]["bytes"] == sc.hex() and sc == raw else None
+            judge_script(ctx, case, raw, True, sc, toks, "txin")
+        elif "err" in r:
+            judge_script(ctx, case, raw, False, None, None, "txin")
+        else:
+            ctx.note("txin_embed_other_outcome")
+            judge_script(ctx, case, raw, None, None, None, "txin")
     elif k == "tx_embed":
         raw = bytes.fromhex(case["hex"])
         ctx.hit("tx_embed")
